@@ -17,7 +17,7 @@ KINDS = ['Circular', 'RadialGradient', 'BackgroundSubtraction', 'RadialGradientB
 def make(kind, radius, search, ro, ut_shape=None):
     if kind == 'UserTemplate':
         ty, tx = ut_shape
-        t = masks.circular(centerX=tx // 2, centerY=ty // 2, imageSizeX=tx, imageSizeY=ty, radius=radius, antialiased=True).astype(np.float64)
+        t = cl.render_disk(ty // 2, tx // 2, ty, tx, radius, True).astype(np.float64)
         return pat.UserTemplate(template=t, search=search), {'kind': kind, 'template': t.tolist(), 'search': search}
     p = cl.make_pattern(kind, radius, search=search, radius_outer=ro)
     return p, {'kind': kind, 'radius': radius, 'search': search, 'radius_outer': ro}
@@ -65,7 +65,7 @@ def gen(rng, small=False):
 def render(c):
     """frame whose log-scaled intensity log(x - min + 1) is  amp' * disk  (flat disk on a uniform background)"""
     fy, fx = c['shape']
-    D = masks.circular(centerX=c['p'][1], centerY=c['p'][0], imageSizeX=fx, imageSizeY=fy, radius=c['radius'], antialiased=c['aa']).astype(np.float64)
+    D = cl.render_disk(c['p'][0], c['p'][1], fy, fx, c['radius'], c['aa']).astype(np.float64)
     if not c['aa']:
         return (c['bg'] + c['amp'] * D)          # sharp disk: log(x - min + 1) = log(1 + amp) * D, integer data
     # antialiased disk: make the LOG-scaled intensity the flat disk: x = bg + exp(a D) - 1  =>  log(x - min + 1) = a D
